@@ -301,7 +301,7 @@ func init() {
 	Register(&Prop{
 		ID:    "C16",
 		Level: "exploration",
-		Rule: "kind rep: the same transaction (journal-heavy programs registering 5-8 children per node under the root, a mapping and an array; journal call trees with and without real Aspects; standard programs with extra EIPs, two transactions; hygiene programs whose callees underflow, fill the stack to 1024 words or read memory they never wrote, before and after a callee that leaves a deep stack and a large written memory behind) is executed K times on equal pre-state in fresh EVMs inside one process (Go re-randomises map iteration per range statement, so K repetitions sample orders); the canonical serialisation - return data, gas, error, state root, logs, full call tree, balance journals and EVERY list-valued query (Children, ChildrenIndices, IndicesOfChanges, ChildrenOf, call-tree children) in the order returned - and the complete hook dump must be byte-identical; " +
+		Rule: "kind rep: the same transaction (journal-heavy programs registering 5-8 children per node under the root, a mapping and an array, with a struct whose first members share its slot so that several keys of different types sit at one location, journaled under each registered type and under an unregistered one; journal call trees with and without real Aspects; standard programs with extra EIPs, two transactions; hygiene programs whose callees underflow, fill the stack to 1024 words or read memory they never wrote, before and after a callee that leaves a deep stack and a large written memory behind) is executed K times on equal pre-state in fresh EVMs inside one process (Go re-randomises map iteration per range statement, so K repetitions sample orders); the canonical serialisation - return data, gas, error, state root, logs, full call tree, balance journals and EVERY list-valued query (Children, ChildrenIndices, IndicesOfChanges, ChildrenOf, call-tree children) in the order returned, plus the by-slot query at every key's location under an unregistered type id - and the complete hook dump must be byte-identical; " +
 			"kind xproc: the same transactions re-run in another worker process, serialisations compared across processes; kind iso: execution A alone vs A with an unrelated execution B (other program, other EVM, other state, possibly other extra EIPs on the same fork) run to completion in the middle of A (inside A's step callback) and between A's transactions: A's serialisation and dump must not change, nor B's; the shared 256-bit constants are compared with their initial values after every case (canary); distinct_nontrivial = distinct serialisations",
 		Assumptions: []string{"K = 30 (quick) / 200 (thorough) repetitions sample map iteration orders; with 5 children the chance that a map-order dependence shows no second order in 30 runs is below 1e-9"},
 		Cases: func(seed uint64, tier string) []Case {
